@@ -491,7 +491,7 @@ var journalFile *os.File
 // goroutines, a fatal runtime error), the driver still has the failing case:
 // it becomes the replay file of a "crash" violation.
 func Journal(check string, c any) {
-	if st.replayDoc != nil || st.fuzz {
+	if st.replayDoc != nil || st.fuzz || os.Getenv("VERIF_NO_JOURNAL") != "" { // the variable exists to test the driver's fallback
 		return
 	}
 	if journalFile == nil {
